@@ -597,6 +597,13 @@ func (ac *assertChecker) indexOfTypeSummary(v ssa.Value, T types.Type, facts []F
 				}
 				continue
 			}
+			// `return slices.IndexFunc(slice, pred)`: -1 or an index at which pred holds; pred holds only for elements of type T
+			if lc, isLC := r.Results[0].(*ssa.Call); isLC && lc.Call.StaticCallee() != nil && strings.HasPrefix(fnFullName(lc.Call.StaticCallee()), "slices.IndexFunc") && len(lc.Call.Args) == 2 && lc.Call.Args[0] == ssa.Value(slice) {
+				if pf := boundMethod(ac.m, lc.Call.Args[1]); pf != nil && predImpliesType(pf, 0, T, 0) {
+					continue
+				}
+				return ""
+			}
 			// returned index i: need dominating fact "slice[i].(T) ok"
 			good := false
 			for _, f := range expandFacts(factsAt(b)) {
@@ -623,6 +630,75 @@ func (ac *assertChecker) indexOfTypeSummary(v ssa.Value, T types.Type, facts []F
 		}
 	}
 	return fmt.Sprintf("index-of-type summary: %s returns -1 or an index whose element passed .(%s); -1 excluded by a dominating test", fnKey(g), typeStr(T))
+}
+
+// predImpliesType: the predicate p holds (returns something that may be true) only for an argument number pi whose
+// comma-ok assertion to T succeeded: every return of a value other than the constant false is made under that fact,
+// hands the question on to another such predicate with the same argument, or is a short-circuit `ok && …` whose
+// non-false side is entered under the fact.
+func predImpliesType(p *ssa.Function, pi int, T types.Type, depth int) bool {
+	if p == nil || p.Blocks == nil || depth > 3 || pi >= len(p.Params) {
+		return false
+	}
+	x := ssa.Value(p.Params[pi])
+	// a closure's parameters come after nothing: free variables are separate, so Params[pi] is the element
+	factHolds := func(b *ssa.BasicBlock) bool {
+		for _, f := range expandFacts(factsAt(b)) {
+			ex, ok := f.Cond.(*ssa.Extract)
+			if !ok || !f.Holds || ex.Index != 1 {
+				continue
+			}
+			ta, ok := ex.Tuple.(*ssa.TypeAssert)
+			if ok && ta.CommaOk && types.Identical(ta.AssertedType, T) && stripIface(ta.X) == x {
+				return true
+			}
+		}
+		return false
+	}
+	var okVal func(v ssa.Value, at *ssa.BasicBlock, d int) bool
+	okVal = func(v ssa.Value, at *ssa.BasicBlock, d int) bool {
+		if d > 3 {
+			return false
+		}
+		if k, isK := v.(*ssa.Const); isK && k.Value != nil && k.Value.String() == "false" {
+			return true
+		}
+		if factHolds(at) {
+			return true
+		}
+		switch y := v.(type) {
+		case *ssa.Phi:
+			for i, e := range y.Edges {
+				if !okVal(e, y.Block().Preds[i], d+1) {
+					return false
+				}
+			}
+			return len(y.Edges) > 0
+		case *ssa.Call:
+			q := y.Call.StaticCallee()
+			if q == nil {
+				return false
+			}
+			for ai, a := range y.Call.Args {
+				if stripIface(a) == x {
+					return predImpliesType(q, ai, T, depth+1)
+				}
+			}
+		}
+		return false
+	}
+	n := 0
+	for _, b := range p.Blocks {
+		ret, isRet := b.Instrs[len(b.Instrs)-1].(*ssa.Return)
+		if !isRet || len(ret.Results) != 1 {
+			continue
+		}
+		n++
+		if !okVal(ret.Results[0], b, 0) {
+			return false
+		}
+	}
+	return n > 0
 }
 
 // RunAssert checks every non-comma-ok TypeAssert in the given functions.
